@@ -3,10 +3,10 @@ Driver entry for property C17 (model: Molli.Model.Job). One request payload in, 
 Every string (names, values, contents) travels hex-encoded (UTF-8 bytes), `-` = empty.
 
   bind <r|s> <jobattrs> <clsattrs> <ev> <ev> ...
-      attrs = <exe|->,<nprocs|->,<memory|->,<k=v&k=v|->        ev = c<i>:<attrs> | u<i>
+      attrs = <exe|->,<nprocs|->,<memory|->,<k=v&k=v|->        ev = c<i>:<attrs> | u<i> | m<i>:<attrs> (attributes reassigned) | d<i> (driver dropped)
       → one token per `u` event:  <exe|->,<nprocs>,<memory>,<k=v&… sorted|->   (none = unknown driver)
   run <r|s> <baseenv k=v&…|-> <envars k=v&…|-> <files name:hex&…|-> <ret none|-|name&name…> <cmd>;<cmd>;…
-      cmd = <name|->/<code>/<out|->/<err|->/<eff,eff…|->
+      cmd = <name|->/<code>/<out|->/<err|->/<eff,eff…|->      code = return code (negative: killed by that signal)
       eff = w:<name>:<data|->  |  c:<src>:<dst>  |  r:<name>  |  e:<var>:<dst>
       → ran=<n> exit=<code> residue=<number of extra scratch entries> out=<none | <exitcode>|<stdouts>|<stderrs>|<files>>
         (dicts: sorted `name:hex` joined by `&`, `-` if empty)
@@ -45,6 +45,11 @@ def parseEv? (s : String) : Option Ev :=
     match (s.drop 1).toString.splitOn ":" with
     | [i, a] => do pure (.create (← i.toNat?) (← parseAttrs? a))
     | _ => none
+  else if s.startsWith "m" then
+    match (s.drop 1).toString.splitOn ":" with
+    | [i, a] => do pure (.mutate (← i.toNat?) (← parseAttrs? a))
+    | _ => none
+  else if s.startsWith "d" then (s.drop 1).toString.toNat?.map Ev.discard
   else none
 
 def strLt (a b : String) : Bool := a < b
@@ -75,7 +80,7 @@ def parseCmd? (s : String) : Option (Option String × Outcome) :=
   match s.splitOn "/" with
   | [n, c, o, e, effs] => do
     let name ← optTok? strOfHex? n
-    let code ← c.toNat?
+    let code ← c.toInt?
     let out ← bytesOfHex? o
     let err ← bytesOfHex? e
     let effects ← (splitList effs ",").mapM parseEffect?
@@ -98,7 +103,7 @@ def handle (payload : String) : String :=
       let outs := (runEvs v cls { job := job, insts := [] } evs).2
       let uses := (evs.zip outs).filterMap fun (e, o) => match e with
         | .use _ => some (match o with | some b => showBound b | none => "none")
-        | .create _ _ => none
+        | _ => none
       if uses.isEmpty then "-" else " ".intercalate uses
     | _, _, _, _ => "err:bad-request"
   | ["run", v, base, envars, files, ret, cmds] =>
